@@ -23,7 +23,10 @@ EVIDENCE = dict(
 
 
 def ok(s, v):
-    return not validate(s, v).has_errors()
+    try:
+        return not validate(s, v).has_errors()
+    except Exception:   # validate raising is C08's business; here it simply is "not accepted"
+        return False
 
 
 def ref_merged(d1, d2):
